@@ -12,7 +12,7 @@ from . import c03 as C03
 
 CLAIM = dict(
     technique="runtime monitoring: sanitizer-instrumented execution of the checked operations over the invalid part of their small-scope argument space (the existing harness ops of C03, C04, C07, C08, C16 driven with labelled invalid and valid arguments), NumPy raise/no-raise as the oracle for has_value; failing stages inside 2-3 stage pipelines fed onward without unwrapping",
-    text="For every operation whose result type for run-time arguments is an optional (recorded by the harness as M=1; operations that do not validate a run-time argument position are listed in the evidence as the unchecked inventory and are only required not to crash on valid arguments), the invalid part of the argument space is executed under ASan/UBSan/libstdc++ assertions, each case labelled with the reason it is invalid: reshape (element-count mismatches, several -1, zero/negative extents), axes in [-dim-2, dim+1] incl. duplicates (flip/expand_dims/moveaxis/swapaxes/transpose, roll, stack, diagonal, the reductions and accumulations of C08 incl. mean/var/stddev/vector_norm, tensordot, trace), operand shapes that do not broadcast (every binary/ternary ufunc of C07 over all incompatible shape pairs of dim 1..3 extents 1..3 for add, stratified samples for the others; where), mismatching operand shapes of concatenate/stack/hstack/vstack/dstack/column_stack, mismatching contraction extents and batch axes of matmul/matmulv2/dot/inner/vecdot/tensordot, pad/roll/tile/repeat/resize/sliding_window/expand list arguments of wrong length or with negative entries, shape-valued arguments of full/zeros/ones/eye with negative entries, plus a share of valid cases. has_value must equal 'NumPy does not raise' (explicit documented rules where NumPy and the property text differ: negative reshape extents, ONNX-style negative pad widths, one-element list broadcasting), and no trap, sanitizer report or escaping C++ exception may occur. Pipelines in which stage 1, 2 or 3 fails are built by passing the optional view directly to the next view and to every evaluation route: once empty always empty, never dereferenced (an empty-optional dereference traps under _GLIBCXX_ASSERTIONS). Held-on-observed.",
+    text="For every operation whose result type for run-time arguments is an optional (recorded by the harness as M=1; operations that do not validate a run-time argument position are listed in the evidence as the unchecked inventory and are only required not to crash on valid arguments), the invalid part of the argument space is executed under ASan/UBSan/libstdc++ assertions, each case labelled with the reason it is invalid: reshape (element-count mismatches, several -1, zero/negative extents), axes in [-dim-2, dim+1] incl. duplicates (flip/expand_dims/moveaxis/swapaxes/transpose; for moveaxis every in-range source list x destination list of 1..3 entries - exhaustive up to 2 entries, duplicates against every valid partner plus samples for 3 - so a repeated axis at any pair of positions of either list is exercised, roll, stack, diagonal, the reductions and accumulations of C08 incl. mean/var/stddev/vector_norm, tensordot, trace), operand shapes that do not broadcast (every binary/ternary ufunc of C07 over all incompatible shape pairs of dim 1..3 extents 1..3 for add, stratified samples for the others; where), mismatching operand shapes of concatenate/stack/hstack/vstack/dstack/column_stack, mismatching contraction extents and batch axes of matmul/matmulv2/dot/inner/vecdot/tensordot, pad/roll/tile/repeat/resize/sliding_window/expand list arguments of wrong length or with negative entries, shape-valued arguments of full/zeros/ones/eye with negative entries, plus a share of valid cases. has_value must equal 'NumPy does not raise' (explicit documented rules where NumPy and the property text differ: negative reshape extents, ONNX-style negative pad widths, one-element list broadcasting), and no trap, sanitizer report or escaping C++ exception may occur. Pipelines in which stage 1, 2 or 3 fails are built by passing the optional view directly to the next view and to every evaluation route: once empty always empty, never dereferenced (an empty-optional dereference traps under _GLIBCXX_ASSERTIONS). Held-on-observed.",
     note="Trusted: NumPy's argument validation (and the documented pad/resize/expand models of C04) as the reference for validity. Which operations count as 'checked' is decided mechanically from the result type (DESIGN.md 1.6); for a checked operation an argument kind the property text does not name and the operation does not validate is listed per (op, reason) in UNCHECKED_POSITIONS and reported in the evidence (unchecked_positions) instead of raising an alarm. Results with a zero extent are out of scope (extents >= 1).",
     ref="DESIGN.md 4/C15")
 HARNESS = ["c15_pipes"]
